@@ -86,7 +86,9 @@ def check_string(ctx, s, case):
 def check(ctx, case):
     v = case["s"]
     if isinstance(v, dict) and "__py__" in v:
-        v = eval(v["__py__"], {"__builtins__": {}, "float": float, "Ellipsis": Ellipsis, "frozenset": frozenset, "bytearray": bytearray, "type": type}, {})    # non-string values for replay
+        v = eval(v["__py__"], {"__builtins__": {}, "float": float, "Ellipsis": Ellipsis, "frozenset": frozenset, "bytearray": bytearray, "type": type,
+                                      "UserString": __import__("collections").UserString, "BioSeq": __import__("Bio.Seq", fromlist=["Seq"]).Seq,
+                                      "BioMutableSeq": __import__("Bio.Seq", fromlist=["MutableSeq"]).MutableSeq, "memoryview": memoryview, "range": range}, {})    # non-string values for replay
     check_string(ctx, v, case)
 
 
@@ -120,7 +122,8 @@ def hyp_case(draw, max_len):
         return {"s": draw(st.text(max_size=30))}
     if kind == "nonstring":
         v = draw(st.sampled_from(["None", "0", "1", "1.5", "b'EK'", "b''", "['E','K']", "[]", "('E','K')", "()", "{'E': 1}", "True", "False", "2.0", "float('nan')", "float('inf')", "Ellipsis", "frozenset('EK')", "bytearray(b'EK')",
-                                  "type('S', (), {'__str__': lambda self: 'EKEK'})()"]))
+                                  "type('S', (), {'__str__': lambda self: 'EKEK'})()", "UserString('EK')", "UserString('ek g')", "BioSeq('EKG')", "BioMutableSeq('EKG')",
+                                  "type('U', (), {'upper': lambda self: 'EKEK', '__str__': lambda self: 'EKEK'})()", "memoryview(b'EK')", "range(3)"]))
         return {"s": {"__py__": v}}
     w = draw(gens.sequences(max_len=max_len))
     chars = []
